@@ -42,3 +42,8 @@ namespace Gtree.Go
 /-- `c.next()` of a counter (counter.go: `c.n += 1; return c.n` under the mutex): the new count, twice -/
 def counterNext (n : Int) : Int × Int := (n + 1, n + 1)
 end Gtree.Go
+
+namespace Gtree.Go
+/-- the indices of `for i := range xs` -/
+def indices {α : Type} (xs : List α) : List Int := (List.range xs.length).map Int.ofNat
+end Gtree.Go
